@@ -508,6 +508,16 @@ func init() {
 			ct := certPtrT.(*types.Pointer).Elem()
 			cert := w.zero(ct).(StructV)
 			cert[structFieldIndex(ct, "Raw")] = w.bytesToSlice(append([]*Term{}, der...))
+			// a certificate made by vhc.TestKeyPair carries the matching idealised public key
+			if cs, ok := concreteStr(Str{der}); ok {
+				for _, tk := range w.keys {
+					if tk != nil && string(tk.der) == cs {
+						_, pub := w.newECDSAKey(fr, tk.k)
+						pubT, _ := w.ecdsaTypes()
+						cert[structFieldIndex(ct, "PublicKey")] = IfaceV{T: types.NewPointer(pubT), V: pub}
+					}
+				}
+			}
 			p := new(Value)
 			*p = cert
 			return Tuple{p, IfaceV{}}
